@@ -582,7 +582,7 @@ func codecLayouts(p *Prog, r *Report, pfx string) {
 // 0, -1 (null) and -2 (unset); it must not fail for any of them.
 func c11SkipValue(p *Prog, r *Report, pfx string) {
 	rule := pfx + ".value-skip"
-	r.Rule(rule, "skipping a batch child's [value] succeeds for the lengths the protocol allows: 0, -1 (null), -2 (unset, v4+) skip nothing; a positive n skips exactly n bytes; read errors are reported")
+	r.Rule(rule, "skipping a batch child's [value] succeeds for the lengths the protocol allows: 0, -1 (null), -2 (unset, v4+) skip nothing; a positive n skips exactly n bytes; other negative lengths and read errors are reported")
 	var fn *ssa.Function
 	for _, f := range p.ScopedFuncs("codecs") {
 		if f.Parent() != nil {
@@ -606,7 +606,7 @@ func c11SkipValue(p *Prog, r *Report, pfx string) {
 		return
 	}
 	var bad []string
-	for _, n := range []int64{-2, -1, 0, 1, 7, 1 << 20} {
+	for _, n := range []int64{-2147483648, -3, -2, -1, 0, 1, 7, 1 << 20} {
 		s := newSim(p)
 		s.Model = func(sm *Sim, st *State, call ssa.CallInstruction, callee *ssa.Function) []*State {
 			switch {
@@ -647,6 +647,10 @@ func c11SkipValue(p *Prog, r *Report, pfx string) {
 				if o.Ret.K != avNonNil {
 					bad = append(bad, fmt.Sprintf("length %d: a failed skip is not reported", n))
 				}
+			case n < -2:
+				if o.Ret.K == avNil || o.St.eff["skip"] != 0 {
+					bad = append(bad, fmt.Sprintf("length %d (not a length the protocol defines) is accepted: a malformed BATCH body is forwarded instead of being rejected", n))
+				}
 			case n <= 0:
 				if o.Ret.K != avNil {
 					bad = append(bad, fmt.Sprintf("length %d (a legal null/unset/empty value) is rejected: valid BATCH bodies fail to decode", n))
@@ -661,5 +665,5 @@ func c11SkipValue(p *Prog, r *Report, pfx string) {
 			}
 		}
 	}
-	r.check(len(bad) == 0, rule, "codecs."+fn.Name(), p.Pos(fn.Pos()), "lengths -2,-1,0,1,7,2^20 folded", strings.Join(dedupe(bad), " || "))
+	r.check(len(bad) == 0, rule, "codecs."+fn.Name(), p.Pos(fn.Pos()), "lengths -2^31,-3,-2,-1,0,1,7,2^20 folded", strings.Join(dedupe(bad), " || "))
 }
